@@ -15,7 +15,7 @@ RULE = ("continue: generated single-bunch configuration (grid, steps, impedance 
         "refuse: start file missing / empty / garbage / text / HDF5 without phase space / two-bunch results / truncated: a "
         "message, no results file, simulation not started")
 ASSUMPTIONS = ["same FFTW wisdom directory for A, B1, B2 (warmed by a discarded run)"]
-TOLERANCES = {"no_renormalisation": "bitwise", "with_renormalisation_rel_to_max": "2e-5 (+ 4 x charge drift of the uninterrupted run when the restart shifts the renormalisation schedule)", "loaded_common_factor": "3e-7 residual"}
+TOLERANCES = {"no_renormalisation": "bitwise", "with_renormalisation_rel_to_max": "2e-5 + 4 x charge drift of the uninterrupted run + 4 x |1 - Simpson integral of the unit Gaussian on this grid|", "loaded_common_factor": "3e-7 residual"}
 
 
 def run_continue(case):
@@ -91,8 +91,16 @@ def run_continue(case):
         # conserved; the allowance therefore grows with the charge drift the uninterrupted run itself reports.
         popA = hA["/BunchPopulation/data"][:, 0].astype(np.float64)
         drift = float(np.abs(popA - 1).max())
-        shifted = (ren == 0) or (ren > 0 and start_step % ren != 0)
-        tol = 2e-5 + (4 * drift if shifted else 0.0)
+        # (the wake of a step is computed from the profile BEFORE that step's renormalisation, so even with an unshifted
+        # schedule the two runs see profiles that differ by the momentary charge deficit; and a restart normalises the loaded
+        # data once with the integral of the freshly constructed unit Gaussian, which on a coarse or shifted grid is not 1)
+        n_ = d["n"]
+        dl = d["pq"] / (n_ - 1)
+        w_ = gen.simpson_weights(n_, dl)
+        qa = -d["pq"] / 2 - o.get("PhaseSpaceShiftX", 0.0) * dl + np.arange(n_) * dl
+        pa = -d["pq"] / 2 - o.get("PhaseSpaceShiftY", 0.0) * dl + np.arange(n_) * dl
+        G = (w_ * np.exp(-qa * qa / 2) / np.sqrt(2 * np.pi)).sum() * (w_ * np.exp(-pa * pa / 2) / np.sqrt(2 * np.pi)).sum()
+        tol = 2e-5 + 4 * drift + 4 * abs(1 - G)
         met["drift"] = drift
     if ren >= 0 and diff > tol:
         return Outcome(False, nontriv, cls, "continued run (from step %d of %d+%d, RenormalizeCharge=%d) ends %.3g (relative to the maximum) away from the uninterrupted run" %
